@@ -366,3 +366,119 @@ Proof.
   intros H Hx. unfold ints_ok, upd in *. apply Forall_app. split; [apply Forall_firstn'; exact H|].
   apply Forall_cons; [exact Hx|apply Forall_skipn'; exact H].
 Qed.
+
+(* ---- memcpy / memmove / memset: a run of cells read from a block, a run of cells written into a block *)
+(* the block with the cells vs written over its cells o .. o + length vs *)
+Definition put_cells {A} (l : list A) (o : nat) (vs : list A) : list A := firstn o l ++ vs ++ skipn (o + length vs) l.
+Lemma put_cells_length {A} (l : list A) o vs : (o + length vs <= length l)%nat -> length (put_cells l o vs) = length l.
+Proof. intro H. unfold put_cells. rewrite !app_length, firstn_length, skipn_length. lia. Qed.
+Lemma put_cells_nil {A} (l : list A) o : put_cells l o [] = l.
+Proof. unfold put_cells. cbn [length app]. rewrite Nat.add_0_r. apply firstn_skipn. Qed.
+Lemma put_cells_cons {A} (l : list A) o v vs : (o < length l)%nat -> put_cells (upd l o v) (S o) vs = put_cells l o (v :: vs).
+Proof.
+  revert o; induction l as [|a l IH]; intros o H; cbn [length] in H; [lia|].
+  destruct o as [|o]; [reflexivity|].
+  change (upd (a :: l) (S o) v) with (a :: upd l o v).
+  change (put_cells (a :: upd l o v) (S (S o)) vs) with (a :: put_cells (upd l o v) (S o) vs).
+  change (put_cells (a :: l) (S o) (v :: vs)) with (a :: put_cells l o (v :: vs)).
+  rewrite IH by lia. reflexivity.
+Qed.
+(* the cells of the block after put_cells: before, inside and behind the written run *)
+Lemma firstn_splice {A} (l : list A) o o' vs : (o' <= o)%nat -> (o <= length l)%nat -> firstn o' (put_cells l o vs) = firstn o' l.
+Proof.
+  intros H H'. unfold put_cells. rewrite firstn_app, firstn_firstn, firstn_length, !Nat.min_l by lia.
+  replace (o' - o)%nat with 0%nat by lia. cbn [firstn]. apply app_nil_r.
+Qed.
+Lemma skipn_splice {A} (l : list A) o vs : (o <= length l)%nat -> skipn o (put_cells l o vs) = vs ++ skipn (o + length vs) l.
+Proof. intro H. unfold put_cells. rewrite skipn_app, firstn_length, Nat.min_l, Nat.sub_diag by lia. rewrite skipn_all2 by (rewrite firstn_length; lia). reflexivity. Qed.
+
+Lemma skipn_cons_nth_error {A} (l : list A) o v : nth_error l o = Some v -> skipn o l = v :: skipn (S o) l.
+Proof.
+  revert l; induction o as [|o IH]; intros [|a l] H; try discriminate; [cbn in H; injection H as ->; reflexivity|].
+  cbn [skipn]. apply IH. exact H.
+Qed.
+Lemma read_cells_ok (blk : block) o n : (o + n <= length blk)%nat -> read_cells blk o n = Ok (firstn n (skipn o blk)).
+Proof.
+  revert o; induction n as [|n IH]; intros o H; [reflexivity|]. cbn [read_cells].
+  destruct (nth_error blk o) as [v|] eqn:E; [|apply nth_error_None in E; lia].
+  rewrite IH by lia. cbn [bind]. rewrite (skipn_cons_nth_error blk o v E). reflexivity.
+Qed.
+Lemma read_cells_oob (blk : block) o n : (0 < n)%nat -> (length blk < o + n)%nat -> read_cells blk o n = Err EOob.
+Proof.
+  revert o; induction n as [|n IH]; intros o Hn H; [lia|]. cbn [read_cells].
+  destruct (nth_error blk o) as [v|] eqn:E; [|reflexivity].
+  assert (o < length blk)%nat by (apply nth_error_Some; congruence).
+  rewrite IH; [reflexivity|lia|lia].
+Qed.
+Lemma write_cells_ok (m : mem) b (blk : block) o vs : nth_error m b = Some blk -> 0 <= o ->
+  (Z.to_nat o + length vs <= length blk)%nat -> write_cells m b o vs = Ok (upd m b (put_cells blk (Z.to_nat o) vs)).
+Proof.
+  revert m blk o; induction vs as [|v vs IH]; intros m blk o Hm Ho Hl.
+  - cbn [write_cells]. rewrite put_cells_nil, upd_self by exact Hm. reflexivity.
+  - cbn [write_cells length] in *. rewrite (store_ok m b blk) by (try exact Hm; lia). cbn [bind].
+    assert (b < length m)%nat as Hb by (apply nth_error_Some; congruence).
+    rewrite (IH _ (upd blk (Z.to_nat o) v)); [| apply mem_upd_same; exact Hb | lia | rewrite upd_length by lia; lia].
+    rewrite upd_upd by exact Hb. replace (Z.to_nat (o + 1)) with (S (Z.to_nat o)) by lia.
+    rewrite put_cells_cons by lia. reflexivity.
+Qed.
+Lemma write_cells_oob (m : mem) b (blk : block) o vs : nth_error m b = Some blk -> 0 <= o -> vs <> [] ->
+  (length blk < Z.to_nat o + length vs)%nat -> write_cells m b o vs = Err EOob.
+Proof.
+  revert m blk o; induction vs as [|v vs IH]; intros m blk o Hm Ho Hne Hl; [congruence|].
+  cbn [write_cells length] in *. destruct (Z_lt_ge_dec o (Z.of_nat (length blk))) as [L|L].
+  - rewrite (store_ok m b blk) by (try exact Hm; lia). cbn [bind].
+    assert (b < length m)%nat as Hb by (apply nth_error_Some; congruence).
+    destruct vs as [|w vs]; [cbn [length] in Hl; lia|].
+    apply (IH _ (upd blk (Z.to_nat o) v)); [apply mem_upd_same; exact Hb|lia|discriminate|rewrite upd_length by lia; lia].
+  - rewrite (store_oob m b blk) by (try exact Hm; lia). reflexivity.
+Qed.
+(* memmove(bd + od, bs + os, n) / memcpy: n cells of the source block, read inside it, land inside the
+   destination block (the same block or another one); nothing else changes *)
+Lemma memmove_ok (m : mem) bd od bs os n (dblk sblk : block) :
+  nth_error m bd = Some dblk -> nth_error m bs = Some sblk -> 0 <= n -> 0 <= os -> 0 <= od ->
+  os + n <= Z.of_nat (length sblk) -> od + n <= Z.of_nat (length dblk) ->
+  do_builtin_m BMemmove [VPtr bd od; VPtr bs os; VInt n] m
+  = Ok (VPtr bd od, upd m bd (put_cells dblk (Z.to_nat od) (firstn (Z.to_nat n) (skipn (Z.to_nat os) sblk)))).
+Proof.
+  intros Hd Hs Hn Hos Hod Hsl Hdl. cbn [do_builtin_m].
+  destruct (Z.ltb_spec n 0); [lia|]. destruct (Z.ltb_spec os 0); [lia|]. cbn [orb]. rewrite Hs.
+  rewrite read_cells_ok by lia. cbn [bind].
+  rewrite (write_cells_ok m bd dblk); [reflexivity|exact Hd|exact Hod|].
+  rewrite firstn_length, skipn_length. lia.
+Qed.
+Lemma memcpy_ok (m : mem) bd od bs os n (dblk sblk : block) :
+  nth_error m bd = Some dblk -> nth_error m bs = Some sblk -> 0 <= n -> 0 <= os -> 0 <= od ->
+  os + n <= Z.of_nat (length sblk) -> od + n <= Z.of_nat (length dblk) ->
+  do_builtin_m BMemcpy [VPtr bd od; VPtr bs os; VInt n] m
+  = Ok (VPtr bd od, upd m bd (put_cells dblk (Z.to_nat od) (firstn (Z.to_nat n) (skipn (Z.to_nat os) sblk)))).
+Proof. exact (memmove_ok m bd od bs os n dblk sblk). Qed.
+(* a copy that would leave the source or the destination block is the error EOob *)
+Lemma memmove_oob (m : mem) bd od bs os n (dblk sblk : block) :
+  nth_error m bd = Some dblk -> nth_error m bs = Some sblk -> 0 < n -> 0 <= os -> 0 <= od ->
+  (Z.of_nat (length sblk) < os + n \/ Z.of_nat (length dblk) < od + n) ->
+  do_builtin_m BMemmove [VPtr bd od; VPtr bs os; VInt n] m = Err EOob.
+Proof.
+  intros Hd Hs Hn Hos Hod Hl. cbn [do_builtin_m].
+  destruct (Z.ltb_spec n 0); [lia|]. destruct (Z.ltb_spec os 0); [lia|]. cbn [orb]. rewrite Hs.
+  destruct (Z_lt_ge_dec (Z.of_nat (length sblk)) (os + n)) as [L|L].
+  - rewrite read_cells_oob by lia. reflexivity.
+  - rewrite read_cells_ok by lia. cbn [bind].
+    rewrite (write_cells_oob m bd dblk); [reflexivity|exact Hd|exact Hod| |].
+    + intro E. apply (f_equal (@length val)) in E. rewrite firstn_length, skipn_length in E. cbn in E. lia.
+    + rewrite firstn_length, skipn_length. lia.
+Qed.
+
+(* ---- a scalar global (static int x;): a block of one cell *)
+Definition cell_at (m : mem) (g : nat) (v : Z) : Prop := nth_error m g = Some [VInt v].
+Lemma load_cell m g v : cell_at m g v -> load m g 0 = Ok (VInt v).
+Proof. intro H. unfold load. rewrite H. reflexivity. Qed.
+Lemma store_cell m g v w : cell_at m g v -> store m g 0 (VInt w) = Ok (upd m g [VInt w]).
+Proof. intro H. rewrite (store_ok m g [VInt v]); [reflexivity|exact H|cbn; lia]. Qed.
+Lemma cell_at_upd_same (m : mem) g v : (g < length m)%nat -> cell_at (upd m g [VInt v]) g v.
+Proof. intro H. unfold cell_at. apply mem_upd_same. exact H. Qed.
+Lemma cell_at_upd_other (m : mem) b (blk' : block) g v : (b < length m)%nat -> g <> b -> cell_at m g v -> cell_at (upd m b blk') g v.
+Proof. intros H Hne Hc. unfold cell_at in *. rewrite mem_upd_other; assumption. Qed.
+Lemma wrap_U64_id z : 0 <= z < 18446744073709551616 -> wrap U64 z = z.
+Proof. intro H. unfold wrap. cbn [ity_bits ity_signed andb]. apply Z.mod_small. exact H. Qed.
+Lemma chk_U64 z : 0 <= z < 18446744073709551616 -> chk U64 z = Ok z.
+Proof. intro H. unfold chk. cbn [ity_signed]. rewrite wrap_U64_id by exact H. reflexivity. Qed.
